@@ -21,7 +21,15 @@ it is NOW, `true` the code before that commit. Now a composer found under a name
 (`c.rtype == rv.Type()`, here `typeBeq`); otherwise the type is registered, which replaces
 the foreign entry. `recBody`/`recompG` take the composer lookup as a parameter, so that the same
 traversal runs with the real registry (`composerFor`) and with an ideal one (`composerPure`: every
-struct type is decoded with its own field index) — the theorems of `Props/C16.lean` compare the two. -/
+struct type is decoded with its own field index) — the theorems of `Props/C16.lean` compare the two.
+
+The handling of VALUES is today's code under both settings of the flag (the flag only selects the
+lookup and the walk): a `null` element of pointer type stays a nil pointer (/repo 4344ad7) and one of
+interface type a nil interface, also in maps (f1da31f); `indexType` descends into an embedded
+pointer-to-struct like into an embedded struct and `setValue` allocates the embedded pointer on the
+way to a promoted field (b19f06c), so no struct type makes registration panic any more
+(`goodT_true` in `RegLemmas.lean`). `Gen.Reflect.altNilPtrElemKept`, `altNilIfaceKept`,
+`altEmbeddedPtrIndexed` tie that to the source. -/
 namespace OjgVerif.Reflect
 open OjgVerif
 
